@@ -209,6 +209,7 @@ pub fn lanes_for(prop: &str, tier: &str, seed: u64) -> Vec<Scenario> {
             v.extend(gen_cli::lane_pairing(seed));
             v.extend(gen_cli::lane_fs_faults(seed));
             v.extend(gen_cli::lane_summary(seed, if thorough { 1 } else { 2 }));
+            v.extend(gen_cli::lane_renderers(seed));
             v.extend(gen_cli::lane_cli_fates(seed, if thorough { 1 } else { 4 }));
             v.extend(gen_cli::lane_cli_timing(seed, if thorough { 2 } else { 8 }));
             v.extend(gen::lane_fates(Tier::Lib, seed));
